@@ -5,10 +5,12 @@ package main
 import (
 	"math"
 	"os"
+	"path/filepath"
 	"strconv"
 	"strings"
 
 	"github.com/Vedant9500/WTF/internal/database"
+	"gopkg.in/yaml.v3"
 )
 
 // C02 monitor: the same request must give the same ranked answer (ids and score bits) on repeated
@@ -111,13 +113,29 @@ func init() {
 		if n := len(cp); n >= 3 && !c02PersonalDone[cur.DB] {
 			c02PersonalDone[cur.DB] = true
 			k := n / 3
+			dir, err := os.MkdirTemp("", "wtfverif-c02")
+			if err != nil {
+				return
+			}
+			defer os.RemoveAll(dir)
+			mp, pp := filepath.Join(dir, "main.yml"), filepath.Join(dir, "personal.yml")
+			dm, e1 := yaml.Marshal(cp[:k])
+			dp, e2 := yaml.Marshal(cp[k:])
+			if e1 != nil || e2 != nil || os.WriteFile(mp, dm, 0o644) != nil || os.WriteFile(pp, dp, 0o644) != nil {
+				return
+			}
 			var firstDB *database.Database
 			var firstRS []database.SearchResult
 			for l := 0; l < 4; l++ {
-				d := c03LoadViaFiles(mon, c03Clone(cp[:k]), c03Clone(cp[k:]), true, true)
+				// the two files as they are on disk (whatever YAML made of the texts), through the real loader
+				d, e := database.LoadDatabaseWithPersonal(mp, pp)
+				if e != nil || d == nil {
+					break
+				}
 				rs := d.SearchUniversal(cur.Query, cur.Opts)
 				if l == 0 {
 					firstDB, firstRS = d, rs
+					mon.Tag("reloaded-with-personal-via-loader")
 					continue
 				}
 				same := len(d.Commands) == len(firstDB.Commands)
